@@ -25,12 +25,18 @@ type config struct {
 	Alpha string // alphabet name
 	L     int    // total number of inputs (before + after the crash)
 	Redel bool   // also explore "the input in flight at the crash is delivered again after recovery"
+	// Pre255 (real walstore only): the first incarnation's store has already flushed 255 prune records (heights 1..255)
+	// in this process, so the commit of h0 carries the 256th and triggers watermark write + rotation + file cleanup.
+	Pre255 bool
 }
 
 func (c *config) String() string {
 	w := "refwal"
 	if c.Real {
 		w = "walstore+crashfs"
+	}
+	if c.Pre255 {
+		w += "+255-prune-records"
 	}
 	return fmt.Sprintf("role=%s app=%s wal=%s alphabet=%s L=%d", roleNames[c.Role], appNames[c.App], w, c.Alpha, c.L)
 }
@@ -268,6 +274,7 @@ func newWorld(cfg *config) *world {
 	w := &world{cfg: cfg, committed: h0 - 1, cur: -1}
 	if cfg.Real {
 		w.real = newRealDisk(nil)
+		w.real.pre255 = cfg.Pre255
 	} else {
 		w.ref = &durable{byHeight: map[types.Height][]entry{}}
 	}
